@@ -262,9 +262,11 @@ def runReq (toks : List String) : String :=
     let oc := runProg { cartDropsErr := false, pathDropsErr := true } p mfuel v
     let ofx := runProg { cartDropsErr := false, pathDropsErr := false } p mfuel v
     let os := eval fuel 0 (preludeEnv ds) t v
-    -- F: inside the proved fragment and no call reaches the prelude (the theorem is stated for the empty prelude)
+    -- F: inside the proved fragment and no call reaches the prelude except `!empty` (its first definition,
+    -- terms 0 and 1): the theorem is stated for the prelude consisting of `def !empty: {}[];`
     let preLen := (compile c01Natives ds .id).terms.length - 1
-    let frag := inFragment t && (reach p.terms.toArray [p.id] []).all (· ≥ preLen)
+    let emptyLen := if (ds.head?.map Def.name) == some emptyName then 2 else 0
+    let frag := inFragment (emptyLen == 2) t && (reach p.terms.toArray [p.id] []).all (fun i => i ≥ preLen || i < emptyLen)
     "ok " ++ (if recu then "R" else "N") ++ (if frag then "F" else "") ++ " | " ++ showOut limit oa ++ " | " ++ showOut limit oc ++ " | " ++ showOut limit ofx ++ " | " ++ showOut limit os
 
 /-! ### the model's table in the syntax of Rust's `Debug` for `compile::Term` -/
